@@ -105,7 +105,7 @@ static void peerCheckParentRead(int stream, const unsigned char* b, ssize_t r) {
 
 // ------------------------------------------------------------------ Process::Arguments (pure clause, rides along)
 static const Process::Option optTable[] = { {'a', "alpha", Process::optionFlag}, {'b', "bravo", Process::optionFlag}, {'o', "out", Process::argumentFlag}, {'v', 0, Process::optionFlag}, {1000, "longonly", Process::argumentFlag} };
-static const char* argWords[] = {"-a", "-b", "-o", "-ab", "-abo", "-ofile", "--alpha", "--out", "--out=v", "--", "-", "x", "-z", "--zeta", "-aofile", "-bz", "--longonly=7", "--longonly", "file", "-v", "--zeta=1", "-ao", "--out=", "--longonly=", "--outx", "--alphabet", "--outer=7", "--longonlyx", "--out-dir", "--bravo2=1"};   /* the last six extend a known name: unknown options, not prefixes of known ones */
+static const char* argWords[] = {"-a", "-b", "-o", "-ab", "-abo", "-ofile", "--alpha", "--out", "--out=v", "--", "-", "x", "-z", "--zeta", "-aofile", "-bz", "--longonly=7", "--longonly", "file", "-v", "--zeta=1", "-ao", "--out=", "--longonly=", "--outx", "--alphabet", "--outer=7", "--longonlyx", "--out-dir", "--bravo2=1", ""};   /* the last six extend a known name: unknown options, not prefixes of known ones; the very last: an empty argument (a positional one, or the value of the option in front of it) */
 struct Parsed { int ch; std::string arg; bool operator==(const Parsed& o) const { return ch == o.ch && arg == o.arg; } };
 static std::vector<Parsed> refParse(const std::vector<std::string>& av) {   // av[0] is the program name
   std::vector<Parsed> out; bool skip = false;
@@ -132,7 +132,7 @@ static std::vector<Parsed> refParse(const std::vector<std::string>& av) {   // a
   return out;
 }
 static void argumentsOp(uint64_t seed) {
-  std::vector<std::string> av; { Host h; av.push_back("prog"); int n = (int)(seed % 6); seed /= 6; for (int i = 0; i < n; ++i) { av.push_back(argWords[seed % 30]); seed /= 30; } if (seed % 13 == 12) { av.clear(); probe("empty_argument_vector"); } }   /* argc == 0: what execve(path, {NULL}, envp) hands to a program */
+  std::vector<std::string> av; { Host h; av.push_back("prog"); int n = (int)(seed % 6); seed /= 6; for (int i = 0; i < n; ++i) { av.push_back(argWords[seed % 31]); seed /= 31; } if (seed % 13 == 12) { av.clear(); probe("empty_argument_vector"); } }   /* argc == 0: what execve(path, {NULL}, envp) hands to a program */
   // every argv[i] lives in an exactly sized arena block: reading past a terminator is caught by the shadow; the vector itself ends with the NULL entry argv[argc]
   int argc = (int)av.size(); char** argv = new char*[argc + 1]; argv[argc] = 0;
   for (int i = 0; i < argc; ++i) { argv[i] = new char[av[i].size() + 1]; memcpy(argv[i], av[i].c_str(), av[i].size() + 1); }
@@ -148,7 +148,7 @@ static void doOpen(const Op& op) {
   C.watermark = simnet::fileIdWatermark();
   int kind = (int)(op.a[0] % 6); C.streams = (unsigned)(op.a[1] % 8); int envN = (int)(op.a[2] % 4); uint64_t seed = (uint64_t)op.a[3];
   Map<String, String> env; { Host h; C.expEnv.clear(); }
-  static const char* ek[] = {"ALPHA", "BETA", "PATHX"}; static const char* ev[] = {"1", "two words", "/x:/y"};
+  static const char* ek[] = {"ALPHA", "BETA", "PATHX"}; static const char* evs[2][3] = {{"1", "two words", "/x:/y"}, {"", "two words", ""}}; const char** ev = evs[(seed >> 29) & 1 ? 1 : 0];   /* a variable may be set to the empty string: that is not the same as not set */
   for (int i = 0; i < envN; ++i) env.insert(String(ek[i], strlen(ek[i])), String(ev[i], strlen(ev[i])));
   { Host h; for (int i = 0; i < envN; ++i) C.expEnv.push_back(std::string(ek[i]) + "=" + ev[i]); C.expParentEnv = envN == 0; }
   std::vector<std::string> w; { Host h; int n = 1 + (int)(seed % 4); seed /= 4; w.push_back("prog"); for (int i = 1; i < n; ++i) { w.push_back(words[1 + seed % 8]); seed /= 8; } }
